@@ -1375,7 +1375,7 @@ class TangentVector(PointPair):
         """
 
         origin = Point.get_origin(dimension, shape, **kwargs)
-        vector = utils.zeros((dimension + 1,), **kwargs)
+        vector = utils.zeros(tuple(shape) + (dimension + 1,), **kwargs)
 
         one = utils.number(1, **kwargs)
         vector[..., 1] = one
